@@ -268,6 +268,32 @@ def batch_stats(us, nbatch=32, burn=0.1):
     return stats
 
 
+def with_chain_errors(st, chains_u, burn=0.1):
+    """Independent chains are the honest yardstick for slowly mixing observables (two water molecules binding and
+    unbinding a few times per chain): the spread of the per-chain means, if there are at least 3 chains, replaces the
+    batch-means error wherever it is larger."""
+    if st is None or len(chains_u) < 3:
+        return st
+    per = []
+    for us in chains_u:
+        us = us[int(len(us) * burn):]
+        if len(us) < 200:
+            continue
+        row = [sum(1 for u in us if k / NBINS <= u < (k + 1) / NBINS or (k == NBINS - 1 and u >= 1.0)) / len(us)
+               for k in range(NBINS)]
+        row.append(sum(us) / len(us))
+        per.append(row)
+    if len(per) < 3:
+        return st
+    out = []
+    for k, (mu, se) in enumerate(st):
+        col = [r[k] for r in per]
+        m = sum(col) / len(col)
+        se_c = math.sqrt(sum((x - m) ** 2 for x in col) / (len(col) - 1) / len(col))
+        out.append((mu, max(se, se_c)))
+    return out
+
+
 EXPECT = [1.0 / NBINS] * NBINS + [0.5]
 FLOOR = [0.10 / NBINS] * NBINS + [0.01]      # absolute effect floors: 10 % of a bin's mass, 0.01 in the mean of F(x)
 
@@ -411,7 +437,7 @@ def analyse(ctx, groups, data, stage, zcut=5.0, all_bins=False):
                 # the chains of one variant are pooled (concatenated; 32 batches over all of them): more power, fewer tests
                 chains_x = pooled.get(obs_name, [])
                 for xs in ([[x for c in chains_x for x in c]] if chains_x else []):
-                    st = batch_stats([F(x) for x in xs])
+                    st = with_chain_errors(batch_stats([F(x) for x in xs]), [[F(x) for x in c] for c in chains_x])
                     if st is None:
                         ctx.count("chains_too_short")
                         continue
@@ -440,7 +466,8 @@ def analyse(ctx, groups, data, stage, zcut=5.0, all_bins=False):
                 for v in names:
                     xs = [x for c in per_variant[v].get(obs_name, []) for x in c]
                     # concatenated chains: batches never straddle much (32 batches over k chains)
-                    sts[v] = batch_stats([keyF(x) for x in xs], nbatch=32)
+                    sts[v] = with_chain_errors(batch_stats([keyF(x) for x in xs], nbatch=32),
+                                               [[keyF(x) for x in c] for c in per_variant[v].get(obs_name, [])])
                 for a in range(len(names)):
                     for b in range(a + 1, len(names)):
                         if sts[names[a]] is None or sts[names[b]] is None:
